@@ -35,7 +35,7 @@ type c18Write struct {
 }
 
 func C18(p *an.Prog, r *an.Report) {
-	r.Explanation = "Effect analysis with the value-flow engine: every exported method of every exported library type (minus a reviewed table of documented mutators/builders) and every exported function is analysed with all memory reachable from its receiver and arguments seeded as 'shared'. Every write instruction in the closure — stores, map updates, copy destinations, in-place appends, arguments mutated by sort/PutUint/rand.Read — whose target may be shared memory, and every store to a package-level variable outside initialisers, is reported. An append onto a shared slice is admitted only when every store to the field it was loaded from, anywhere in the library, assigns a slice with no spare capacity (so append must reallocate). No goroutine is started by the library. If no read-only call writes to memory that another call can see, no interleaving of such calls has a write/read conflict; schedules need not be enumerated."
+	r.Explanation = "Effect analysis with the value-flow engine: every exported method of every exported library type (minus a reviewed table of documented mutators/builders) and every exported function is analysed with all memory reachable from its receiver and arguments seeded as 'shared'. Every write instruction in the closure — stores, map updates, copy destinations, in-place appends, arguments mutated by sort/PutUint/rand.Read — whose target may be shared memory, and every store to a package-level variable outside initialisers, is reported. An append onto a shared slice is admitted only when every store to the field it was loaded from, anywhere in the library, assigns a slice with no spare capacity (so append must reallocate). No goroutine is started by the library. If no read-only call writes to memory that another call can see, no interleaving of such calls has a write/read conflict; schedules need not be enumerated. Memory reached through a package-level variable of the library is part of the shared region wherever the loaded value travels."
 	r.Rule = "one obligation per read-only entry point (its closure contains no write to shared memory); one per package-level variable (never written after init); one for go statements"
 	r.Trusted = []string{"logger, oops, standard library and go-i2p/crypto verifiers are safe for concurrent use", "go/ssa, VTA call graph"}
 
